@@ -8,7 +8,7 @@
    transformation() followed by conversion_surface_params(). *)
 From Coq Require Import List ZArith Bool Reals Lra.
 From T4V Require Import Base.Scalar C04.Vec C04.Model C04.Spec C04.ProofsFrame C04.ProofsConvert
-  C04.ProofsQuad C04.ProofsSurf C04.ProofsMatrix C04.ProofsCard C04.ProofsTorus C04.ProofsMatrix5.
+  C04.ProofsQuad C04.ProofsSurf C04.ProofsMatrix C04.ProofsCard C04.ProofsTorus C04.ProofsMatrix5 C04.ProofsCompose C04.ProofsComposeCex C04.ProofsAdjust C04.ProofsTree.
 Import ListNotations.
 Open Scope R_scope.
 
@@ -85,6 +85,18 @@ Theorem C04_frame_transform_torus : forall (o : R3) (b : M3 R) c u cp nap (p' : 
 Proof. exact frame_transform_torus. Qed.
 Print Assumptions C04_frame_transform_torus.
 
+(* torus, NO guard on the moved axis: the written surface is exactly the torus with the
+   moved centre and the same radii about an axis a' which is the moved axis itself or the
+   coordinate axis numpy.allclose snapped it to, with |a' x axis|^2 <= tiny = 2e-16 *)
+Theorem C04_frame_transform_torus_total : forall (o : R3) (b : M3 R) c u cp nap,
+  rows_orthonormal b -> norm2 u = 1 ->
+  exists t a', tr_convert RS (vlist o ++ mlist b) (mkMS KT c u cp nap) = Ok [(t, 1%Z)] /\
+    (forall p', t4val t (to_main o b p') = msense (mkMS KT (to_main o b c) a' cp nap) (to_main o b p')) /\
+    norm2 a' = 1 /\ (a' = tvec b u \/ norm2 (cross a' (tvec b u)) <= tiny) /\
+    (a' = tvec b u -> forall p', t4val t (to_main o b p') = msense (mkMS KT c u cp nap) p').
+Proof. exact frame_transform_torus_total. Qed.
+Print Assumptions C04_frame_transform_torus_total.
+
 (* ---------- abbreviated matrices ([rotation] = orthonormal rows, det = 1;
    [agrees pat b] = every supplied entry of the pattern is unchanged) ---------- *)
 Theorem C04_normalize_matrix_9_reproduces : forall b : M3 R,
@@ -138,6 +150,21 @@ Theorem C04_adjust_matrix_fixpoint : forall m : M3 R,
   rows_orthonormal m -> clip_ok_m m -> adjust_matrix RS (mlist m) = Ok (mlist m).
 Proof. exact adjust_matrix_fixpoint. Qed.
 Print Assumptions C04_adjust_matrix_fixpoint.
+
+(* ... and on ANY nine numbers (skewed, non-unit, improper): if adjust_matrix returns, the
+   result is entrywise within 1e-10 of a matrix with orthonormal rows and columns, and a
+   second pass changes nothing *)
+Theorem C04_adjust_matrix_near_orthonormal : forall (m : M3 R) (l : list R),
+  adjust_matrix RS (mlist m) = Ok l ->
+  exists out q : M3 R, l = mlist out /\ rows_orthonormal q /\ rows_orthonormal (transpose q) /\ close_m out q.
+Proof. exact adjust_matrix_near_orthonormal. Qed.
+Print Assumptions C04_adjust_matrix_near_orthonormal.
+
+Theorem C04_adjust_matrix_idempotent : forall (m : M3 R) (l : list R),
+  adjust_matrix RS (mlist m) = Ok l -> clip_ok_m (adjust_cols RS m) ->
+  adjust_matrix RS l = Ok l.
+Proof. exact adjust_matrix_idempotent. Qed.
+Print Assumptions C04_adjust_matrix_idempotent.
 
 (* ---------- cards ---------- *)
 Theorem C04_to_cos_deg : forall a : R, to_cos RS a = cos (a * PI / 180).
@@ -217,6 +244,87 @@ Theorem C04_frame_transform_sq : forall (q : list R) (o : R3) (b : M3 R) pt u na
              t4val c (to_main o b p') = msense s p').
 Proof. exact frame_transform_sq. Qed.
 Print Assumptions C04_frame_transform_sq.
+
+(* ---------- compose_transform and its call sites ---------- *)
+(* [tr12 o b] = the 12 numbers; [aff o b p] = B p + O (the reading of the docstring and of
+   Transformation.transform_vector); [to_main o b p] = O + B^T p (the reading that moves
+   surfaces).  compose_transform is the composition in the affine reading ... *)
+Theorem C04_compose_affine : forall o1 b1 o2 b2 p,
+  exists o b, compose_transform RS (tr12 o1 b1) (tr12 o2 b2) = Some (tr12 o b) /\
+              aff o b p = aff o2 b2 (aff o1 b1 p).
+Proof. exact compose_affine. Qed.
+Print Assumptions C04_compose_affine.
+
+(* ... and in the MCNP reading exactly when B2 B1 = B1 B2 and B2 O1 = B2^T O1 *)
+Theorem C04_compose_mcnp_iff : forall o1 b1 o2 b2,
+  exists o b, compose_transform RS (tr12 o1 b1) (tr12 o2 b2) = Some (tr12 o b) /\
+    ((forall p, to_main o b p = to_main o2 b2 (to_main o1 b1 p)) <-> commute_cond o1 b1 b2).
+Proof. exact compose_mcnp_iff. Qed.
+Print Assumptions C04_compose_mcnp_iff.
+
+Theorem C04_compose_not_mcnp_composition_in_general :
+  exists o1 b1 o2 b2 o b p,
+    rotation b1 /\ rotation b2 /\
+    compose_transform RS (tr12 o1 b1) (tr12 o2 b2) = Some (tr12 o b) /\
+    to_main o b p <> to_main o2 b2 (to_main o1 b1 p).
+Proof. exact compose_not_mcnp_composition_in_general. Qed.
+Print Assumptions C04_compose_not_mcnp_composition_in_general.
+
+Theorem C04_compose_translation_second : forall o1 b1 o2,
+  compose_transform RS (tr12 o1 b1) (tr12 o2 idR) = Some (tr12 (vplus (mvec idR o1) o2) (mmul idR b1)) /\
+  commute_cond o1 b1 idR /\
+  forall p, to_main (vplus (mvec idR o1) o2) (mmul idR b1) p = vplus o2 (to_main o1 b1 p).
+Proof. exact compose_translation_second. Qed.
+Print Assumptions C04_compose_translation_second.
+
+(* the only caller, develop_lattice: a lattice element's fill transformation is the
+   cell's fill transformation (else its TRCL, else nothing) followed by the translation
+   to the element; the TRCL list is the parser's (at most one transformation) *)
+Theorem C04_lattice_filltr_fill : forall (o : R3) (b : M3 R) trcls (transl : R3),
+  exists o' b', lattice_filltr RS (tr12 o b) trcls transl = Some (tr12 o' b') /\
+    forall p, to_main o' b' p = translate transl (to_main o b p).
+Proof. exact lattice_filltr_fill. Qed.
+Print Assumptions C04_lattice_filltr_fill.
+
+Theorem C04_lattice_filltr_trcl : forall (o : R3) (b : M3 R) (transl : R3),
+  lattice_filltr RS [] [] transl = Some (tr12 transl idR) /\
+  (forall p, to_main transl idR p = translate transl p) /\
+  exists o' b', lattice_filltr RS [] [tr12 o b] transl = Some (tr12 o' b') /\
+    forall p, to_main o' b' p = translate transl (to_main o b p).
+Proof. exact lattice_filltr_trcl. Qed.
+Print Assumptions C04_lattice_filltr_trcl.
+
+(* ---------- a whole TRCL cell (pot_transform / apply_trcl) ---------- *)
+(* [region cellsem tb t p]: p is in the region of expression t (signed surface leaves read in the
+   surface dictionary tb: -n inside every part, +n outside some part; complement nodes through
+   cellsem).  A cell whose expression mentions surfaces only ([surf_only], numbers within the
+   dictionary) and carries one TRCL (O,B): the walk gives every leaf a NEW surface, keeps the old
+   dictionary entries, and the new expression at the moved point is the old one at the original point *)
+Theorem C04_trcl_cell : forall (o : R3) (b : M3 R) cellsem (t t' : gtree) (st st' : pstate),
+  rows_orthonormal b -> surf_only (fst st) t = true -> (0 <= fst st)%Z ->
+  table_wf (snd st) -> keys_le (fst st) (snd st) ->
+  apply_trcl RS [tr12 o b] t st = Ok (t', st') ->
+  (forall p', region cellsem (snd st') t' (to_main o b p') <-> region cellsem (snd st) t p') /\
+  (forall j, (j <= fst st)%Z -> lookup j (snd st') = lookup j (snd st)) /\ table_wf (snd st').
+Proof. exact trcl_cell. Qed.
+Print Assumptions C04_trcl_cell.
+
+(* one part of a dictionary entry: transformation() obeys the interface law for every kind
+   (frames, GQ, SQ) ... *)
+Theorem C04_transformation_law : forall (o : R3) (b : M3 R) (s : msurf R),
+  rows_orthonormal b -> part_wf s ->
+  exists s', transformation RS (tr12 o b) s = Ok s' /\ part_wf s' /\
+    forall p', (mneg s' (to_main o b p') <-> mneg s p') /\ (mpos s' (to_main o b p') <-> mpos s p').
+Proof. exact transformation_law. Qed.
+Print Assumptions C04_transformation_law.
+
+(* ... and its conversion writes surfaces selecting the same two regions (plane, sphere,
+   cylinder, cone with 0/1/2 sheets, GQ; unit axes) *)
+Theorem C04_convert_law : forall (s : msurf R), conv_wf s ->
+  exists coll, convert RS s = Ok coll /\
+    forall P, (mneg s P <-> coll_neg coll P) /\ (mpos s P <-> coll_pos coll P).
+Proof. exact convert_law. Qed.
+Print Assumptions C04_convert_law.
 
 (* non-vacuity: the quarter turn about z used by the corpus deck
    TRCL=(1 0 0  0 1 0  -1 0 0  0 0 1) satisfies every hypothesis on B, and moves
